@@ -120,10 +120,20 @@ func apiSection(o *hlib.Out, seed uint64) {
 		fl[rng.Intn(len(fl))] ^= 1 << uint(rng.Intn(8))
 		alts = append(alts, alt{"flip", fl, false})
 		alts = append(alts, alt{"truncated", sig[:rng.Intn(len(sig))], false})
+		direct, err := pmldsa.NewVerifier(pub, internalapi.Token{}) // the primitive without the keyset wrapper
+		if err != nil {
+			panic(err)
+		}
+		if e := direct.Verify(sig, msg); e != nil {
+			o.Violate("signature/mldsa %s: the primitive rejects the signer's output: %v", vname[vi], e)
+		}
 		for _, a := range alts {
 			got := verifier.Verify(a.sig, msg) == nil
 			if got != a.ok {
 				o.Violate("signature/mldsa %s: %s → accepted=%v", vname[vi], a.kind, got)
+			}
+			if got2 := direct.Verify(a.sig, msg) == nil; got2 != a.ok {
+				o.Violate("signature/mldsa %s primitive (no keyset wrapper): %s → accepted=%v", vname[vi], a.kind, got2)
 			}
 			o.Count("api/reject-" + a.kind)
 		}
@@ -291,7 +301,7 @@ func compositeSection(o *hlib.Out, seed uint64) {
 			}
 			var signer tink.Signer
 			var verifier tink.Verifier
-			if round%2 == 0 {
+			if (round+ci)%2 == 0 {
 				signer, err = comp.NewSigner(priv, internalapi.Token{})
 				if err != nil {
 					panic(err)
